@@ -54,7 +54,7 @@ func init() {
 			checkC19GroupAddGroup(c, budget(c.Tier, 150, 1500))
 		}}
 	props["C02"] = propRun{
-		rule: "(a) option tokens in all spellings over ASCII / multi-byte / invalid names and arbitrary values through the splitting functions; (b) metamorphic groups: one generated declaration and surrounding argument vector, one occurrence of one option rendered as -xV, -x=V, -x V, --name=V, --name V and quoted forms; (c) cluster groups -abc [V] / -a -b -c [V] / -ab -c [V] with non-ASCII flags; (d) random whole-parser cases with 40% non-ASCII names; (e) library only: the spellings of an option of a bool-KINDED named type with its own conversion (scalar / pointer; it takes an argument although its kind is bool); distinct per token / group",
+		rule: "(a) option tokens in all spellings over ASCII / multi-byte / invalid names and arbitrary values through the splitting functions; (b) metamorphic groups: one generated declaration and surrounding argument vector, one occurrence of one option rendered as -xV, -x=V, -x V, --name=V, --name V and quoted forms; (c) cluster groups -abc [V] / -a -b -c [V] / -ab -c [V] with non-ASCII flags; (d) random whole-parser cases with 40% non-ASCII names; (e) library only: the spellings of an option of a bool-KINDED named type with its own conversion (scalar / pointer; it takes an argument although its kind is bool); (f) shadow stage: below a command that redeclares an outer level's short name with the other arity (outer -v takes an argument, the command's -v is a flag, or the reverse) clusters equal separate flags and -xV, -x=V, -x V, --name=V, --name V are one occurrence; distinct per token / group",
 		run: func(c *Ctx) {
 			c.N = budget(c.Tier, 3000, 200000)
 			checkC02Split(c)
@@ -64,6 +64,7 @@ func init() {
 			checkC02Spellings(c, budget(c.Tier, 500, 20000), p)
 			checkC02Clusters(c, budget(c.Tier, 200, 15000), p)
 			checkC02Exotic(c, budget(c.Tier, 100, 2000))
+			checkC02Shadow(c, budget(c.Tier, 150, 5000))
 			pp := defaultProfile
 			pp.Utf = 0.4
 			pp.BadDecl = 0.01
@@ -168,6 +169,7 @@ func init() {
 			checkC06ArgsRequired(c, budget(c.Tier, 400, 10000))
 			checkC06Reuse(c, budget(c.Tier, 300, 10000))
 			checkC06BeforeCommand(c, budget(c.Tier, 200, 6000))
+			checkC06RequiredChanged(c, budget(c.Tier, 200, 6000))
 		}}
 	}
 	parseProp("C07", caseRule+"emphasis: unknown / near-miss / out-of-scope options under the three policies", 2500, 100000, func(p *Profile) {
